@@ -1,26 +1,140 @@
 """Per-property manifest metadata (level, technique, trusted base)."""
-A = ('Trusted base: the API summary tables of the checker (pandas/NumPy/scikit-learn/matplotlib '
-     'behaviour, DESIGN.md A1), exact-real arithmetic where numeric kernels are analysed (A2), the '
-     'Python semantics of the supported AST subset as encoded in sa/symexec.py (A3). ')
+A = ('Trusted base: the API summary tables of the checker (pandas / NumPy / scikit-learn / matplotlib behaviour, '
+     'DESIGN.md A1), the Python semantics of the supported AST subset as encoded in sa/symexec.py (A3). '
+     'Nothing of the package is imported or executed. ')
+A2 = 'Numeric kernels are analysed in exact-real arithmetic (IEEE effects within an ulp of a boundary are outside the model). '
+
+
+def _o(technique, text, note):
+    return {'level': 'other', 'technique': technique, 'text': text, 'note': A + note}
+
 
 REGISTRY = {
+    'C01': _o('provenance-term comparison of metar_msg / metarize with the specification (AST abstract executor), '
+              'transducer lemmas, decision tables, piecewise-affine kernel analysis',
+              'Static proof by decomposition: the exits of metar_msg, the report predicate (significant & base < MSA, '
+              'identity test on the MSA), the code assembly, the sort-before-significance ordering of the table history, '
+              'the 1-3-5 lemmas on the extracted transducer (all sequences) and the range/format of the WMO conversions '
+              'are each decided as obligations on the source; together they imply the statement for every input.',
+              A2 + 'Numeric values of okta and base are C03/C04.'),
+    'C02': _o('decision-table extraction (truth table over guard atoms of the exits of metar_msg), transducer observer '
+              'lemmas, guard/term comparison for the high-cloud flag',
+              'The 16-row truth table of metar_msg over the atoms no-sets / some-row-reported / significant-row-at-or-'
+              'above-MSA / flag is extracted from the guards of its exits and compared with the specification; that the '
+              'lowest cloud layer and the ceiling are always flagged is checked on the product of the extracted '
+              'transducer with an observer automaton (all okta sequences); the flag is raised iff more than '
+              'MAX_HITS_OKTA0 hits were cropped.',
+              'The bridge from the atoms to the wording of the property uses the sortedness of the table (checked).'),
+    'C03': _o('provenance-term comparison (distinct (ceilo, dt) counting), linear normal form of the okta guard chain, '
+              'kernel monotonicity of perc2okta',
+              'n_hits, max_hits_per_layer, perc and the ordered 0 / 8 / binned okta chain are compared as terms with the '
+              'specification (rows instead of distinct measurements, de-duplication across ceilometers, a swapped or '
+              'strict buffer comparison all change the term); perc2okta is shown non-decreasing with range [0, 8].',
+              A2 + 'Distinctness of measurements is NumPy float equality on dt.'),
+    'C04': _o('argument-binding and selection terms at every call of calc_base_height (callers inlined), reducer table '
+              'for the statistics columns, kernel analysis of height2code',
+              'Structural necessary conditions: look-back and percentile bound from the chunk snapshot at report and '
+              'decision time, selection = members (minus excluded ceilometers when enough remain) of the time-sorted '
+              'data, tail slice and percentile in the routine, mean/std/min/max/thickness/fluffiness of the members, '
+              'code = floor (never round) of base/100, table sorted by ascending base. The numerical equality with the '
+              'percentile is not claimed.',
+              A2 + 'np.percentile of a non-empty selection lies between its min and max (A1).'),
+    'C05': _o('id-space arithmetic on the generated layer ids (linear form, stride vs component cap, offset provably '
+              'above the inherited ids), mask agreement of label write-backs, who-may-write on the hit columns',
+              'Decides the structural part: generated and inherited layer ids are disjoint, every stage fills null ids '
+              'from its parent stage, sentinel -1 handled consistently by counters and table builder, cluster labels are '
+              'written to exactly the rows fed to the clustering, no stage modifies or drops hits. That scikit-learn '
+              'returns one label per row and that mixture components are populated is not claimed.',
+              'One label per fed row from scikit-learn (A1).'),
+    'C06': _o('provenance of the heights handed to calc_base_height (must derive from the time-sorted data), sibling '
+              'agreement of decision-time and report-time selections, comparator strictness, lookup guard',
+              'Necessary conditions of the separation guarantee: the bases that enter merge / re-merge decisions are '
+              'computed by the same routine, on time-ordered heights, with the same exclusion logic and parameters as '
+              'the bases finally reported; merging uses strict "<" in both siblings; the separation bin lookup is '
+              'guarded. The numerical separation itself is not claimed.', ''),
+    'C07': _o('predicate normalisation of the two cropping selections (disjoint cover of height > MSA + buffer, strict), '
+              'effect extraction from the functional update chain, index typestate',
+              'Nothing above the limit survives into the chunk and everything else is untouched: the selections partition '
+              '{height > limit} by hit type, the only effects are type := 0 / height := NaN and a row drop, all under an '
+              'identity test on the MSA, on a frame with normalised index; the flag counts exactly the cropped hits.',
+              'Equality of the tables of two related runs follows on paper from these facts and C09.'),
+    'C08': _o('raise-site census (class of every raised exception, no handlers), dominating-guard rules in front of '
+              'third-party calls with preconditions, decorator pass-through',
+              'Decides the second sentence of the property and the guard discipline: every raise is AmpycloudError, no '
+              'handler swallows, and each third-party precondition known to bite (>= 2 samples for agglomerative '
+              'clustering, populated mixture models, non-empty percentile selection, single-point LOWESS, Python-int '
+              'oktas) is established by a dominating guard at the wrapper or at every call site. Termination/totality of '
+              'the third-party numerics is NOT claimed.', ''),
+    'C09': _o('effect analysis (global-RNG consumers confined under tmp_seed), explicit random_state binding across call '
+              'sites, try/finally typestate of tmp_seed, set-iteration and clock-taint scans, module-state confinement',
+              'Reproducibility can only break through a finite list of constructs: an estimator without fixed seed, a '
+              'draw from / re-seed of the global generator, hash-ordered iteration, clock/pid values, state kept between '
+              'runs. Each is excluded package-wide or on the processing path; tmp_seed restores the saved state in a '
+              'finally block enclosing the yield.', 'Bitwise determinism inside the numerical libraries (A4).'),
+    'C10': _o('index typestate (USER / UNIQUE / RANGE) along the derivation chain of the chunk data, scan for positional '
+              'column access before normalisation, coercion table',
+              'The private copy gets a fresh RangeIndex before any label-based row operation and no method de-normalises '
+              'it; columns of the user frame are only addressed by name; every required column is cast to the tested '
+              'dtype and every other column dropped.', 'Label alignment semantics of pandas (A1).'),
+    'C11': _o('inter-procedural mutation / ownership summaries (deep vs shallow copies, return aliases) over the whole '
+              'package', 'No public entry point writes through an argument it borrowed, the global parameter dictionary '
+              'has exactly two writers, nothing writes through the snapshot after construction, and the chunk fields are '
+              'assigned objects it owns outright (deep copies).', 'Frames derived by pandas operations are new objects.'),
+    'C12': _o('global-read census with alias substitution, guard analysis of the merge routine, fresh-object provenance '
+              'of the defaults, YAML key agreement (minimal YAML reader)',
+              'The live global dictionary is read only as the argument of the deep copy that makes the snapshot (plus '
+              'MPL_STYLE in plots and the two documented writers), both routes merge through the same routine which never '
+              'stores on its unknown-key path, reset reads the packaged file afresh, no stale import-time binding exists, '
+              'and every parameter path read from the snapshot exists in the packaged defaults.', ''),
+    'C13': _o('confinement analysis: module/class/closure/memo state and argument mutation summaries over every function '
+              'reachable from the processing path',
+              'If all working state is reachable only from the chunk instance and helpers are pure, no schedule can make '
+              'chunks interfere; both premises are decided for every reachable function, which covers all interleavings '
+              'at once (no schedule is enumerated).', 'Thread-safety of third-party code on unshared objects (A4).'),
+    'C14': _o('typestate analysis of the stage methods with callees inlined: ordered guarded events, presence guards, '
+              'kill sets of later-stage facts, refusal-before-mutation',
+              'Every dereference of a stage product is dominated by a presence guard raising AmpycloudError; a stage that '
+              'overwrites a later stage\'s product refuses when it exists; no call-order refusal is reachable after a '
+              'write to chunk state; each stage resets its own id column before reading it. Holds for every call '
+              'sequence because it is a property of each method in every abstract state.',
+              'Equality of recomputed tables rests on determinism (C09).'),
+    'C15': _o('census and classification of the refusal conditions of check_data_consistency (own condition of every '
+              'raise), ordering of normalisation steps, trigger/repair agreement',
+              'The raise sites are exactly the five documented conditions (duplicates over all columns, coincidence by '
+              'inner merge on (dt, ceilo) for types 0 and -1), the sanity checks only warn with AmpycloudWarning, the '
+              'working copy is a deep copy that is returned, casts and drops repair exactly what was tested.',
+              'Semantics of pandas duplicated()/merge (A1).'),
+    'C16': _o('name-taint scan over provenance terms: ceilometer names may only meet ==, !=, membership in the exclusion '
+              'list, unique, len; per-ceilometer results only order-insensitive integer reductions',
+              'Renaming can only matter through ordering, string operations, positional use of the sorted name list or '
+              'order-sensitive combination of per-ceilometer values; each is excluded on the processing path.',
+              'EXCLUDE_FOR_BASE_HEIGHT_CALC is a list (A5).'),
     'C17': {
         'level': 'model_checking',
-        'technique': 'finite-state fold extraction from the AST + bisimulation with the 1-3-5 '
-                     'specification transducer (product automaton, all sequences of all lengths)',
-        'text': 'The loop of icao.significant_cloud is turned into a finite transducer by abstract '
-                'interpretation of its body (scalars exact, append-only list abstracted by its '
-                'count(True) observer); the product with the specification transducer is explored '
-                'exhaustively over okta 0..8 (0..9 thorough), which decides the rule for every '
-                'sequence of every length, where tests sample five sequences.',
-        'note': A + 'The model is extracted from the source on every run (no hand-written model), so '
-                'there are no traces to validate against the implementation. Okta values are integers.',
-    },
+        'technique': 'finite-state fold extraction from the AST + bisimulation with the 1-3-5 specification transducer '
+                     '(product automaton, all sequences of all lengths)',
+        'text': 'The loop of icao.significant_cloud is turned into a finite transducer by abstract interpretation of its '
+                'body (scalars exact, append-only list abstracted by its count(True) observer); the product with the '
+                'specification transducer is explored exhaustively over okta 0..8 (0..9 thorough), which decides the rule '
+                'for every sequence of every length, where tests sample five sequences.',
+        'note': A + 'The model is extracted from the source on every run (no hand-written model), so there are no traces '
+                    'to validate against the implementation. Okta values are integers.'},
+    'C18': _o('decision-table extraction for okta2code; piecewise-affine abstract interpretation (floor/ceil/round aware) '
+              'of height2code and of the NumPy masked-assignment code of perc2okta',
+              'okta2code is evaluated symbolically for integers -2..11 and non-integers; height2code and perc2okta are '
+              'reduced to piecewise functions of one real variable, on which range, refusal domain, rounding direction, '
+              'bin edges and monotonicity are decided for all reals in the domain at once.', A2),
+    'C19': _o('NaN-safety census of reductions; exact Laurent-polynomial algebra showing undo(do(v)) == v and a forward '
+              'coefficient 1/positive for each scaling mode',
+              'Claims only the structural clauses: reductions over the data are NaN-safe, all-NaN input is passed through '
+              'before parameters are derived, each mode\'s undo is the algebraic inverse of its do with the same atoms, '
+              'the forward map is increasing, the minimum range is honoured symmetrically. Continuity of step scaling '
+              'across steps is NOT decided.', A2 + 'scale > 0, max > min, step scales > 0 (A5).'),
+    'C20': _o('effect analysis of plot code (rcParams writers, figure lifecycle under `not show`, file writes under '
+              '`save_stem is not None`), chunk read-only summaries, modulo rule on style-cycle subscripts',
+              'No unscoped writer of matplotlib global configuration exists in the package and public figure-creating '
+              'functions run inside plt.style.context; the figure is closed on every normal show=False path; files are '
+              'written once per requested format only when a stem is given; plot code has no write effect on the chunk; '
+              'style cycles are indexed modulo their length. Totality of matplotlib is not claimed.', ''),
 }
-
 NOT_APPLICABLE = {}
-for _i in range(1, 21):
-    _pid = f'C{_i:02d}'
-    REGISTRY.setdefault(_pid, None)
-REGISTRY = {k: v for k, v in REGISTRY.items() if v is not None} | \
-    {k: {'level': 'other', 'technique': '', 'text': '', 'note': ''} for k, v in REGISTRY.items() if v is None}
